@@ -31,21 +31,41 @@ ASSUMPTIONS = [
     "single term (the printed form of `{a+b}` is `a + b`, which is a two-term formula for the parser)",
 ]
 
-# factor key -> (printed form, variables used incl. callables, is a numeric literal)
+# factor key (as written in a formula) -> (printed form, variables used incl. callables, is a numeric literal, Factor.expr)
 FACTORS = {
-    "a": ("a", ("a",), False),
-    "b": ("b", ("b",), False),
-    "A": ("A", ("A",), False),
-    "B": ("B", ("B",), False),
-    "D": ("D", ("D",), False),
-    "{a+b}": ("a + b", ("a", "b"), False),
-    "2.5": ("2.5", (), True),
-    "poly(a,2)": ("poly(a, 2)", ("poly", "a"), False),
-    "bs(a,df=4)": ("bs(a, df=4)", ("bs", "a"), False),
+    "a": ("a", ("a",), False, "a"),
+    "b": ("b", ("b",), False, "b"),
+    "A": ("A", ("A",), False, "A"),
+    "B": ("B", ("B",), False, "B"),
+    "D": ("D", ("D",), False, "D"),
+    "{a+b}": ("a + b", ("a", "b"), False, "a + b"),
+    "2.5": ("2.5", (), True, "2.5"),
+    "poly(a,2)": ("poly(a, 2)", ("poly", "a"), False, "poly(a, 2)"),
+    "bs(a,df=4)": ("bs(a, df=4)", ("bs", "a"), False, "bs(a, df=4)"),
+    # column names that must be back-quoted in a formula; a factor whose expression contains ':' also PRINTS back-quoted
+    "`ns:qty`": ("`ns:qty`", ("ns:qty",), False, "ns:qty"),
+    "`ns:price`": ("`ns:price`", ("ns:price",), False, "ns:price"),
+    "`c:d`": ("`c:d`", ("c:d",), False, "c:d"),          # categorical, 2 levels
+    "`w v`": ("w v", ("w v",), False, "w v"),
+    "`p.q`": ("p.q", ("p.q",), False, "p.q"),
 }
 # ASCII-sorted by printed form, so that subsets rendered in this order print in sorted factor order
 BASE = ["A", "B", "a", "{a+b}", "b"]
 SPECIAL = [("2.5", "a"), ("B", "A"), ("b", "A", "a"), ("poly(a,2)",), ("bs(a,df=4)",), ("D",), ("D", "A")]
+
+
+QPOOL = ["`ns:qty`", "`ns:price`", "`c:d`", "`w v`", "A", "a"]
+QSECOND = [None, ("`p.q`", "`ns:qty`")]
+
+
+def quoted_universe():
+    """every ordered sequence of 1..3 distinct factors of QPOOL that contains at least one back-quoted name"""
+    out = []
+    for k in (1, 2, 3):
+        for t in itertools.permutations(QPOOL, k):
+            if any(f.startswith("`") for f in t):
+                out.append(t)
+    return out
 
 
 def universe(max_size):
@@ -82,6 +102,11 @@ def frames():
         "A": pd.Series(list("xyzxyz"), dtype=object),
         "B": pd.Series(list("uvuvvu"), dtype=object),
         "D": pd.Series(list("qqqqqq"), dtype=object),
+        "ns:qty": [3.0, 1.0, 4.0, 1.5, 9.0, 2.0],
+        "ns:price": [2.5, 7.0, 1.0, 8.0, 2.0, 6.0],
+        "c:d": pd.Series(list("ghhggh"), dtype=object),
+        "w v": [0.5, 1.5, 2.5, 3.5, 5.5, 4.5],
+        "p.q": [6.0, 5.0, 4.0, 3.0, 2.0, 1.5],
     })
     f2 = pd.DataFrame({
         "a": [0.5, 9.0, 2.5, 6.0, 3.5, 8.0, 1.5],
@@ -89,6 +114,11 @@ def frames():
         "A": pd.Series(["r", "p", "q", "q", "r", "p", "q"], dtype=object),
         "B": pd.Series(["m", "k", "k", "m", "m", "k", "m"], dtype=object),
         "D": pd.Series(["only"] * 7, dtype=object),
+        "ns:qty": [1.0, 2.0, 4.0, 8.0, 16.0, 3.0, 5.0],
+        "ns:price": [9.0, 7.0, 5.0, 3.0, 1.0, 2.0, 4.0],
+        "c:d": pd.Series(["t", "s", "s", "t", "s", "t", "t"], dtype=object),
+        "w v": [2.0, 3.0, 5.0, 7.0, 11.0, 13.0, 17.0],
+        "p.q": [0.1, 0.2, 0.3, 0.5, 0.8, 1.3, 2.1],
     })
     return [f1, f2]
 
@@ -111,19 +141,27 @@ def same_values(x, y):
 
 
 def belongs(name, term):
-    """is `name` a column that the term `term` can generate (see ASSUMPTIONS)"""
-    facs = [FACTORS[f][0] for f in term if not FACTORS[f][2]]
+    """is `name` a column that the term `term` can generate (see ASSUMPTIONS); factor names may contain ':' themselves"""
+    facs = [FACTORS[f][3] for f in term if not FACTORS[f][2]]
     if not facs:
         return name == "Intercept"
-    parts = name.split(":")
-    i = 0
-    for p in parts:
-        while i < len(facs) and not (p == facs[i] or p.startswith(facs[i] + "[")):
-            i += 1
-        if i == len(facs):
-            return False
-        i += 1
-    return True
+
+    def match(s, i):
+        for j in range(i, len(facs)):
+            f = facs[j]
+            if not s.startswith(f):
+                continue
+            rest = s[len(f):]
+            if rest.startswith("["):
+                k = rest.find("]")
+                if k < 0:
+                    continue
+                rest = rest[k + 1:]
+            if rest == "" or (rest.startswith(":") and match(rest[1:], j + 1)):
+                return True
+        return False
+
+    return match(name, 0)
 
 
 def drv(c, ctx, col):
@@ -135,6 +173,10 @@ def drv(c, ctx, col):
     terms = [ctx["first"]] if ctx.get("first") is not None else []
     while len(terms) < n:
         terms.append(c.pick(U))
+    if ctx.get("second"):
+        extra = c.pick(ctx["second"])
+        if extra is not None:
+            terms.append(extra)
     form = c.pick(ctx.get("forms", ["string", "termlist"]))
     icpt = c.pick(["none", "first"] if form == "string" else ["none", "first", "last"])
     output = c.pick(ctx.get("outputs", ["pandas", "numpy", "sparse"]))
@@ -157,17 +199,17 @@ def drv(c, ctx, col):
         exp_terms = sorted(exp_terms, key=degree)  # documented default: stable sort by degree
         desc = "model_matrix(%r, data)" % text
     else:
-        lst = [written(t) for t in terms]
+        exp_terms = list(terms)
         if icpt == "first":
-            lst = ["1"] + lst
+            exp_terms = [()] + exp_terms
         elif icpt == "last":
-            lst = lst + ["1"]
-        exp_terms = [tuple(x.split(":")) if x != "1" else () for x in lst]
+            exp_terms = exp_terms + [()]
+        lst = [written(t) if t else "1" for t in exp_terms]
         spec_in = Formula(lst, _ordering="none")
         desc = "model_matrix(Formula(%r, _ordering='none'), data)" % (lst,)
     cfg = "output=%s ensure_full_rank=%s frame=%d" % (output, efr, fi + 1)
     where = "%s %s" % (desc, cfg)
-    repro_head = ("import pandas as pd; from formulaic import *; data = pd.DataFrame(%r).astype({'A': object, 'B': object, 'D': object}); "
+    repro_head = ("import pandas as pd; from formulaic import *; data = pd.DataFrame(%r).astype({'A': object, 'B': object, 'D': object, 'c:d': object}); "
                   "ms = %s.model_spec; "
                   % (data.to_dict("list"), desc.replace("data)", "data, output=%r, ensure_full_rank=%r)" % (output, efr))))
     try:
@@ -275,8 +317,9 @@ def drv(c, ctx, col):
                  "expr": "print(ms.term_indices); print(ms.term_indices[%r])" % s})
         # extra: other factor orders of the printed form (not demanded by the property; counted only)
         if len(k.factors) > 1:
-            for perm in itertools.permutations([repr(f) for f in k.factors]):
-                ps = ":".join(perm)
+            for fperm in itertools.permutations(k.factors):
+                perm = [f.expr for f in fperm]
+                ps = ":".join(repr(f) for f in fperm)
                 if ps == s:
                     continue
                 for via, chk, r in (("term_indices", ix_ok, attempt(lambda: ms.term_indices[ps])),
@@ -347,7 +390,7 @@ def drv(c, ctx, col):
 
 def reparses(term):
     """does the printed form of the term parse back to the same single term"""
-    return all(f in ("a", "b", "A", "B", "D", "2.5") for f in term)
+    return all(f in ("a", "b", "A", "B", "D", "2.5", "`ns:qty`", "`ns:price`", "`c:d`", "`p.q`") for f in term)
 
 
 def check_subsets(ctx, col, bad, ms, mm, data, output, keys, exp_terms, P, names):
@@ -402,21 +445,27 @@ FORMS = ["string", "term list with _ordering='none' (intercept none/first/last)"
 def subchecks(tier, seed):
     fr = frames()
     U2, U3 = universe(2), universe(3)
-    for t in U3 + USUB:  # the hand-written table must describe every universe term
+    UQ = quoted_universe()
+    UQ2 = [t for t in UQ if len(t) <= 2]
+    QNOTE = ("names that need back-quotes (':' , ' ', '.'): every ordered sequence of 1..3 distinct factors of %r with at least one "
+             "back-quoted name, i.e. quoted factors in first / middle / last position" % (QPOOL,))
+    for t in U3 + USUB + UQ:  # the hand-written table must describe every universe term
         for f in t:
             assert f in FACTORS
     W = lambda U: [written(t) for t in U]  # noqa: E731
     ALLOUT = ["pandas", "numpy", "sparse"]
 
-    def sub(name, checks, U, nmin, nmax, outputs, frame_ids, shard_depth, first=None, note=None):
+    def sub(name, checks, U, nmin, nmax, outputs, frame_ids, shard_depth, first=None, note=None, second=None):
         b = {"checks": checks, "terms_per_formula": "%d..%d (+ intercept)" % (nmin, nmax), "universe": W(U), "outputs": outputs,
              "ensure_full_rank": [True, False], "frames": [i + 1 for i in frame_ids], "forms": FORMS}
         if first is not None:
             b["first_term"] = written(first)
         if note:
             b["note"] = note
+        if second:
+            b["optional_extra_term"] = [written(t) if t else None for t in second]
         return Sub(name, drv, {"universe": U, "nmin": nmin, "nmax": nmax, "frames": fr, "outputs": outputs, "frame_ids": frame_ids,
-                               "checks": checks, "first": first}, shard_depth=shard_depth, bounds=b)
+                               "checks": checks, "first": first, "second": second}, shard_depth=shard_depth, bounds=b)
 
     if tier == "quick":
         first = U3[seed % len(U3)]
@@ -427,6 +476,8 @@ def subchecks(tier, seed):
             sub("subsets-le1-outputs", ["subsets"], U3, 1, 1, ["numpy", "sparse"], [0, 1], 2),
             sub("meta-3-seed-slice", ["metadata"], U2, 3, 3, ["pandas"], [0], 2, first=first,
                 note="VERIF_SEED-selected exhaustive slice (first term fixed) of the 3-term scope"),
+            sub("meta-quoted-names", ["metadata"], UQ, 1, 1, ["pandas"], [0], 2, second=QSECOND, note=QNOTE),
+            sub("subsets-quoted-names", ["subsets"], UQ2, 1, 1, ["pandas"], [1], 2, second=QSECOND, note=QNOTE),
         ]
     return [
         sub("meta-le2", ["metadata"], U3, 0, 2, ALLOUT, [0, 1], 3),
@@ -434,4 +485,6 @@ def subchecks(tier, seed):
         sub("subsets-le2", ["subsets"], U2, 0, 2, ALLOUT, [0], 3),
         sub("subsets-le2-wide", ["subsets"], U3, 0, 2, ["pandas"], [1], 3),
         sub("subsets-3", ["subsets"], USUB3, 3, 3, ["pandas"], [0], 3),
+        sub("meta-quoted-names", ["metadata"], UQ, 1, 1, ALLOUT, [0, 1], 2, second=QSECOND + [("`ns:price`",), ("a",)], note=QNOTE),
+        sub("subsets-quoted-names", ["subsets"], UQ, 1, 1, ["pandas", "sparse"], [1], 2, second=QSECOND, note=QNOTE),
     ]
